@@ -38,6 +38,41 @@ Definition finish_tree (p q : parser) (n : str) (pre : val) : res val :=
       end
   end.
 
+(* ---------------------------------------------------------------- re-loading a configuration through the TOP parser
+   _ActionSubCommands.handle_subcommands with env=True (default_env): the subcommand's part of the configuration is
+   merged OVER subparser.parse_env(defaults, _skip_validation=True), i.e. over the subcommand's defaults with ITS links
+   already applied and not validated. A dump holds no target, so the target computed from the DEFAULT sources survives
+   the merge; add_sub_defaults -> _apply_actions then checks every leaf with its action (a link action checks with the
+   type of the target it replaced) before apply_parsing_links could recompute it
+   (finding subcommand-env-defaults-stale-target; [fixed] = fixes/C15-subcommand-env-defaults-stale-target.patch: the
+   defaults/environment stage runs under skip_apply_links). Plain-argument subcommand parsers only. *)
+Definition reload_sub (fixed : bool) (q : parser) (sub : val) : res val :=
+  match (if fixed then Ok (defaults q) else apply_links fn (defaults q) (p_links q)) with
+  | Err e => Err e
+  | Ok dflt =>
+      let merged := update dflt sub in
+      (* _apply_actions: the value found at every argument's key is checked (leniently: None passes) with its type *)
+      if forallb (fun a => match plain_ty (fst a), get merged (d_key (fst a)) with
+                           | Some t, Some v => lenient t v
+                           | _, _ => true
+                           end) (p_acts q)
+      then Ok merged else Err EOther
+  end.
+
+Definition types_ok (p : parser) (cfg : val) : bool :=
+  forallb (fun a => match get cfg (d_key (fst a)) with
+                    | None => true
+                    | Some v => value_ok classes p (fst a) v
+                    end) (p_acts p).
+
+(* guard of that finding: the subcommand parser's own defaults, pushed through its links, give some argument a value
+   its type rejects (the parser only works when the user overrides those sources) *)
+Definition stale_default_target (q : parser) : bool :=
+  match apply_links fn (defaults q) (p_links q) with
+  | Ok c => negb (types_ok q c)
+  | Err _ => false
+  end.
+
 End WithFn.
 
 (* [strip1] = strip or strip_fixed *)
